@@ -780,3 +780,39 @@ Proof.
   - destruct (H2 Hin) as (_ & Hst & _). congruence.
   - destruct H1 as [H1|H1]; [|congruence]. exact (IH H1 Hn2 Hin).
 Qed.
+
+(* ---- Ctrl-C before the session's goroutine has begun ---- *)
+
+Lemma no_crash : forall fixed f e, ~ In OCrash (snd (step_gen fixed f e)).
+Proof.
+  intros fixed [z p] e. destruct z as [u c1 s1 e1 st cl h rd lp t1 t2 t3 ks gb].
+  destruct e as [buf|buf|r|buf| | |code| | | |]; crush; cbn [In]; rewrite ?in_app_iff; cbn [In];
+    intros H; repeat (destruct H as [H|H]; try discriminate); try contradiction.
+Qed.
+
+Lemma no_crash_run : forall fixed evs f, ~ In OCrash (snd (run_gen fixed f evs)).
+Proof.
+  intros fixed. induction evs as [|e evs IH]; intros f; [intros []|].
+  cbn [run_gen]. pose proof (no_crash fixed f e) as H1.
+  destruct (step_gen fixed f e) as [f1 o1]. specialize (IH f1).
+  destruct (run_gen fixed f1 evs) as [f2 o2]. cbn [snd] in *.
+  intros H. apply in_app_iff in H as [H|H]; auto.
+Qed.
+
+Lemma pinned_agrees : forall f e, (forall buf, e = EvInput buf -> crash_window f buf = false) ->
+  step_pinned f e = step f e.
+Proof.
+  intros f e H. destruct e; try reflexivity. cbn [step_pinned]. rewrite (H buf eq_refl). reflexivity.
+Qed.
+
+Lemma pinned_crashes :
+  snd (run_pinned idle [EvServer hdr_download; EvInput [Consts.zmodem_ctrl_c]]) =
+    [OForward; OTerm hdr_download; OHide; OStart false; OCrash].
+Proof. vm_compute. reflexivity. Qed.
+
+(* the same history on the code with the proposed fix: cancelled and cleaned up *)
+Lemma early_ctrl_c_fixed :
+  snd (run idle [EvServer hdr_download; EvInput [Consts.zmodem_ctrl_c]; EvGraceBegin; EvLaunch LaunchOk; EvCleanupFire]) =
+    [OForward; OTerm hdr_download; OHide; OStart false;
+     OCancelServer; OArm TCleanup; OMsg MStopped; OInput false; OServer Consts.zmodem_cleanup_enter].
+Proof. vm_compute. reflexivity. Qed.
